@@ -121,3 +121,22 @@ package linking
 //@   before NewBuffer assert[C06] err == nil && carg0 == block
 //@   before Build assert[C06] err == nil
 //@   ensures[C06] err != nil && lsys.NodeReifier == nil ==> r == nil
+
+// ---- C17/C05: a link system keys its storage by the binary form of the link ----
+//@ func (*LinkSystem).SetReadStorage$1(lctx, lnk) (r, err)
+//@   requires lnk != nil && store != nil
+//@   before GetStream assert[C05,C17] carg1 == store && carg2 == lbin(lnk.lid)
+//@   after GetStream let got = result0
+//@   after GetStream let goterr = result1
+//@   ensures[C05,C17] err == goterr && (goterr == nil ==> r == got)
+//@ func (*LinkSystem).SetWriteStorage$1(lctx) (w, c, err)
+//@   requires store != nil
+//@   before PutStream assert[C05,C17] carg1 == store
+//@   after PutStream let got = result0
+//@   after PutStream let goterr = result2
+//@   ensures[C05,C17] w == got && err == goterr
+//@ func (*LinkSystem).SetWriteStorage$1$1(lnk) (err)
+//@   requires lnk != nil && wrcommit != nil
+//@   before wrcommit assert[C05,C17] carg0 == lbin(lnk.lid)
+//@   after wrcommit let goterr = result0
+//@   ensures[C05,C17] err == goterr
